@@ -1,5 +1,5 @@
-(* Stages B-F, part 2: the reference semantics Sem.run on programs over variables (declared at the top level and in blocks;
-   conditionals, condition loops and three-clause loops with break / continue nested to any depth) computes exactly [run_stmts], whenever
+(* Stages B-G, part 2: the reference semantics Sem.run on programs over variables (declared at the top level and in blocks;
+   conditionals, plain loops, condition loops and three-clause loops with break / continue nested to any depth) computes exactly [run_stmts], whenever
    the latter's fuel suffices.  The variable at position i of the visible ones is bound, in the environment, to a store
    location of its own that holds its value; the bindings a block adds are gone when the block ends. *)
 From Coq Require Import List ZArith NArith Bool Arith Lia.
@@ -69,6 +69,27 @@ Definition wloop (f : nat) (e : env) (c : node) (body : list node) : nat -> stat
 Lemma eval_NFor_cond names f e s c body : eval (S f) e s (NFor (Some (F.embed names c)) None None body) =
   wloop f e (F.embed names c) body f s.
 Proof. destruct c; reflexivity. Qed.
+
+(* the plain loop `for { }` of Sem.eval *)
+Definition ploop (f : nat) (e : env) (body : list node) : nat -> state -> outcome * env * state :=
+  fix lp (k : nat) (s : state) : outcome * env * state :=
+    match k with
+    | O => (OErr XFuel, e, s)
+    | S k' => match eblock f ([] :: e) s body with
+              | (OVal _, _, s') | (OCont, _, s') => lp k' s'
+              | (OBrk, _, s') => (OVal VNil, e, s')
+              | (o, _, s') => (o, e, s')
+              end
+    end.
+Lemma eval_NFor_plain f e s body : eval (S f) e s (NFor None None None body) = ploop f e body f s.
+Proof. reflexivity. Qed.
+Lemma ploop_S f e body k s : ploop f e body (S k) s =
+  match eblock f ([] :: e) s body with
+  | (OVal _, _, s') | (OCont, _, s') => ploop f e body k s'
+  | (OBrk, _, s') => (OVal VNil, e, s')
+  | (o, _, s') => (o, e, s')
+  end.
+Proof. reflexivity. Qed.
 
 (* the rounds of the three-clause loop of Sem.eval (after the init clause): [le] is the loop's environment *)
 Definition floop (f : nat) (e le : env) (c p : node) (body : list node) : nat -> state -> outcome * env * state :=
@@ -465,6 +486,39 @@ Section Names.
         try (rewrite Hlen; assumption). exact Hr.
   Qed.
 
+  (* the plain loop: source fuel m, at most j rounds, body evaluated with fuel S f *)
+  Lemma ploop_sem f b e scope locs k : forall m, (forall j, j < m -> stmt_sem j) -> m <= S f ->
+    P.max_height b <= f -> scope_ok k scope -> k + P.ndecls b <= length names ->
+    env_part scope locs e ->
+    forall j rho s r, m <= j -> store_part rho locs s -> length rho = length scope ->
+    P.wf_stmts true (length rho) b = true ->
+    P.run_stmt m rho (P.SLoop b) = Some r ->
+    match r with
+    | inl (rho', v) => exists s',
+        ploop (S f) e (P.embed_stmts names k scope b) j s = (OVal VNil, e, s') /\ store_part rho' locs s' /\ v = F.VNil
+    | inr (P.StErr x) => exists s', ploop (S f) e (P.embed_stmts names k scope b) j s = (lift (inr x), e, s')
+    | inr _ => False
+    end.
+  Proof.
+    induction m as [|m IH]; intros Hst Hmf Hhb Hok Hn Henv j rho s r Hj Hsto Hls Hwb Hr; [discriminate|].
+    destruct j as [|j]; [lia|].
+    rewrite PF.run_SLoop in Hr. rewrite ploop_S.
+    assert (Hinv1 : sem_inv rho scope locs ([] :: e) s) by (split; [apply env_part_push; exact Henv|exact Hsto]).
+    destruct (PF.run_blk m rho b) as [rb|] eqn:Er; [|discriminate].
+    pose proof (eblock_list m f (Hst m ltac:(lia)) ltac:(lia) b rho scope locs ([] :: e) s true k rb Hinv1 Hok Hn Hwb Hhb Er) as Hb.
+    pose proof (PF.run_block_length m b rho rb Er) as Hlen.
+    destruct rb as [[rho1 v1]|[x|rho1|rho1]]; cbn [block_concl PF.lenb_ok] in *.
+    - destruct Hb as [s1 [Hb [_ Hs1]]]. rewrite Hb.
+      apply (IH ltac:(intros i Hi; apply Hst; lia) ltac:(lia) Hhb Hok Hn Henv j rho1 s1 r ltac:(lia) Hs1 ltac:(lia));
+        try (rewrite Hlen; assumption). exact Hr.
+    - destruct Hb as [s1 Hb]. rewrite Hb. inversion Hr; subst r. exists s1. destruct x; reflexivity.
+    - destruct Hb as [s1 [Hb Hs1]]. rewrite Hb. inversion Hr; subst r.
+      exists s1. split; [reflexivity|]. split; [exact Hs1|reflexivity].
+    - destruct Hb as [s1 [Hb Hs1]]. rewrite Hb.
+      apply (IH ltac:(intros i Hi; apply Hst; lia) ltac:(lia) Hhb Hok Hn Henv j rho1 s1 r ltac:(lia) Hs1 ltac:(lia));
+        try (rewrite Hlen; assumption). exact Hr.
+  Qed.
+
   (* the rounds of a three-clause loop: [scope] and [locs] include the loop variable; source fuel n for body and post,
      kk rounds allowed at the source level, j >= kk in Sem *)
   Lemma floop_sem n f c p b e le scope locs k lp : stmt_sem n -> n <= f ->
@@ -544,7 +598,7 @@ Section Names.
     intros st rho scope locs e s f lp k r Hinv Hok Hk Hwf Hf Hnf Hr.
     pose proof (sem_inv_env_ok rho scope locs e s k Hinv Hok) as Henv.
     assert (Hls : length scope = length rho) by (destruct Hinv as [[_ [H1 _]] [H2 _]]; lia).
-    destruct st as [x|i x|i o x|i up|x|c t el|c t|c b|x c p b| |].
+    destruct st as [x|i x|i o x|i up|x|c t el|c t|c b|b|x c p b| |].
     - (* x := e *)
       cbn [P.embed_stmt P.wf_stmt P.next_scope P.nd P.sheight P.run_stmt] in *.
       rewrite eval_NVar, (sem_scalar (P.vnames names scope) rho x f e s Hf Hwf Henv).
@@ -622,6 +676,16 @@ Section Names.
       destruct Hinv as [Henvp Hsto].
       pose proof (wloop_sem f c b e scope locs k (S n) ltac:(intros j Hj; apply IH; lia) ltac:(lia) ltac:(lia) ltac:(lia) Hok Hk Henvp
                     (S f) rho s r ltac:(lia) Hsto ltac:(lia) Hwc Hwb Hr) as H.
+      destruct r as [[rho' v]|[xx|rho'|rho']]; cbn [run_concl]; try contradiction.
+      + destruct H as [s' [H [Hs' ->]]]. exists e, s', []. rewrite app_nil_r. split; [exact H|split; assumption].
+      + destruct H as [s' H]. exists e, s'. exact H.
+    - (* for { b } *)
+      rewrite PF.wf_SLoop in Hwf. rename Hwf into Hwb.
+      rewrite PF.sheight_SLoop in Hf. destruct f as [|f]; [lia|]. rewrite PF.nd_SLoop in Hk. cbn [P.next_scope].
+      rewrite PF.embed_SLoop, eval_NFor_plain.
+      destruct Hinv as [Henvp Hsto].
+      pose proof (ploop_sem f b e scope locs k (S n) ltac:(intros j Hj; apply IH; lia) ltac:(lia) ltac:(lia) Hok Hk Henvp
+                    (S f) rho s r ltac:(lia) Hsto ltac:(lia) Hwb Hr) as H.
       destruct r as [[rho' v]|[xx|rho'|rho']]; cbn [run_concl]; try contradiction.
       + destruct H as [s' [H [Hs' ->]]]. exists e, s', []. rewrite app_nil_r. split; [exact H|split; assumption].
       + destruct H as [s' H]. exists e, s'. exact H.
@@ -712,7 +776,7 @@ Section Names.
   Proof.
     induction l as [|st r IH]; intros k scope acc; [reflexivity|].
     rewrite PF.embed_stmts_cons. cbn [fold_left].
-    destruct st as [x|i x|i o x|i up|x|c t el|c t|c b|x c p b| |]; cbn [P.embed_stmt]; try apply IH.
+    destruct st as [x|i x|i o x|i up|x|c t el|c t|c b|b|x c p b| |]; cbn [P.embed_stmt]; try apply IH.
     destruct x; cbn [F.embed]; apply IH.
   Qed.
 
